@@ -404,7 +404,7 @@ func init() {
 			"(a') 600 writes in a scratch format whose driver is being replaced concurrently by two distinguishable fake drivers: each write must be serialized and rendered by the same driver; " +
 			"(b) a registry history (2-4 clients, <=200 operations on 2-3 contended scratch keys, call/return stamps from one atomic clock) is recorded for the unserializer and the serializer registry and checked for linearizability against a per-key register with porcupine (timeout = inconclusive). " +
 			"The same rounds run in a -race build whose GORACE logs are parsed (reports with protobom frames are violations); a runtime abort kills the child and is attributed to the round. " +
-			"distinct = hash of the hook-event order of the round; non-trivial = round in which hook points were reached.",
+			"Writes include SPDX documents with four different indentations (each reporting the indentation it produced) and two documents with distinguishable header texts in both formats. distinct = hash of the hook-event order of the round; non-trivial = round in which hook points were reached.",
 		Assumptions: []string{"schedules are sampled; the race detector is happens-before based and reports races on executed accesses whether or not the bad interleaving occurred", "documents written concurrently are independent copies"},
 		NCases:      c17Rounds,
 		Case:        c17Round,
